@@ -174,3 +174,9 @@ package txpool
 //@   invariant @loop 0: forall(i, 0, len(pool.txs), pool.txs[i] == old(pool.txs[i]) || pool.txs[i] == nil)
 //@   invariant @loop 0: forall(k, 0, $k, txs[k] != nil ==> forall(i, 0, len(pool.txs), pool.txs[i] != nil ==> pool.txs[i].Hash() != txs[k].Hash()))
 //@   nopanic
+
+// handing a block to the replay cache (for chain.initTxPool: gh("guarded", h) records that the block at height h was handed
+// over; the cache's own bookkeeping is not visible to that caller)
+//@ func (*TxGuard).SaveBlock   trusted
+//@   modifies gh("guarded", int(block.Header.Height))
+//@   ensures block != nil ==> gh("guarded", int(block.Header.Height)) == 1
